@@ -31,7 +31,7 @@ def stored(app):
             'applied_migrations': sorted(a.applied_migrations or [])}
 
 
-def one(k, m, s, app='vapp'):
+def one(k, m, s, app='vapp', dep=False):
     from django_evolution.compat.apps import get_apps
     from django_evolution.evolve import EvolveAppTask, Evolver
     from django_evolution.utils.apps import get_app_label
@@ -39,11 +39,11 @@ def one(k, m, s, app='vapp'):
     case = c10.Case(k, m, s, None)
     case.app = app
     names = case.names()
-    res = {'params': [k, m, s], 'app': app, 'runs': []}
+    res = {'params': [k, m, s], 'app': app, 'waits_for_new_app': dep, 'runs': []}
 
-    def run(vapp_fields, evolutions, migrations, skip=()):
+    def run(vapp_fields, evolutions, migrations, skip=(), with_wapp=False):
         evorig._hygiene()
-        sp = c10.spec(vapp_fields, None)
+        sp = c10.spec(vapp_fields, ['w'] if with_wapp else None)
         sp['apps'][0]['id'] = app
         sp['apps'][0]['models'][0]['table'] = '%s_alpha' % app
         sp['apps'].append(evorig.MAPP_SPEC)
@@ -67,6 +67,8 @@ def one(k, m, s, app='vapp'):
                 out['ok'] = False
                 out['error'] = '%s: %s' % (type(e).__name__, str(e)[:200])
         out['applying_migration'] = [str(p.get('migration')) for n, p in tr.signals() if n == 'applying_migration']
+        out['applying_evolution'] = [list(p.get('evolutions') or []) for n, p in tr.signals()
+                                     if n == 'applying_evolution' and p.get('app') == app]
         return out
 
     evorig.fresh_databases()
@@ -76,8 +78,17 @@ def one(k, m, s, app='vapp'):
     res['runs'].append(dict(r1, what='release 1 (vapp only)'))
     # release 2: the hand-over of vapp, and mapp joins the project
     final_fields = ['base'] + case.fnames + case.gnames
-    r2 = run(final_fields, case.evolutions(), case.migrations())
-    res['runs'].append(dict(r2, what='hand-over of vapp next to the first installation of mapp'))
+    evos = case.evolutions()
+    if dep:
+        # the hand-over evolution has to wait for another app, which gets its first model in this very release: the
+        # graph comes back to the app's task after the model creation
+        evos[-1] = dict(evos[-1], after_evolutions=['wapp'])
+    res['expected_evolutions'] = [e['label'] for e in evos]
+    r2 = run(final_fields, evos, case.migrations(), with_wapp=dep)
+    res['runs'].append(dict(r2, what='hand-over of %s next to the first installation of mapp' % app))
+    from vlib import dbrig
+    res['columns'] = sorted(dbrig.abs_schema().get('%s_alpha' % app, {}).get('columns', {}))
+    res['expected_columns'] = sorted(['id'] + final_fields)
     res['vapp_rows'] = recorder(app)
     res['mapp_rows'] = recorder('mapp')
     res['stored_vapp'] = stored(app)
@@ -88,7 +99,7 @@ def one(k, m, s, app='vapp'):
     res['stray_labels'] = [x for x in labels if x not in ('contenttypes', 'django_evolution', 'mapp', 'vapp', 'wapp', 'xapp', 'lapp')]
     res['expected_vapp_rows'] = names
     # release 2 again: nothing left to do
-    r3 = run(final_fields, case.evolutions(), case.migrations())
+    r3 = run(final_fields, evos, case.migrations(), with_wapp=dep)
     res['runs'].append(dict(r3, what='the same release once more'))
     res['vapp_rows_after_second_run'] = recorder(app)
     return res
@@ -98,10 +109,11 @@ def main(out_path):
     evorig.setup(migration_app=True, custom_label_app=True)
     out = []
     # (`lapp`: an app whose label is not its package name - the label is what Django's migration table goes by)
-    for k, m, s, app in ((1, 3, 1, 'vapp'), (1, 3, 2, 'vapp'), (2, 4, 2, 'vapp'), (0, 2, 1, 'vapp'),
-                         (1, 3, 1, 'lapp'), (1, 3, 2, 'lapp'), (0, 2, 1, 'lapp')):
+    for k, m, s, app, dep in ((1, 3, 1, 'vapp', False), (1, 3, 2, 'vapp', False), (2, 4, 2, 'vapp', False),
+                              (0, 2, 1, 'vapp', False), (1, 3, 1, 'lapp', False), (1, 3, 2, 'lapp', False),
+                              (0, 2, 1, 'lapp', False), (1, 3, 2, 'vapp', True), (2, 4, 2, 'vapp', True)):
         try:
-            out.append(one(k, m, s, app))
+            out.append(one(k, m, s, app, dep))
         except Exception as e:       # a case the rig cannot set up is reported, not hidden
             out.append({'params': [k, m, s], 'app': app, 'rig_error': '%s: %s' % (type(e).__name__, str(e)[:300])})
     json.dump(out, open(out_path, 'w'), default=str)
